@@ -140,6 +140,26 @@ M = [
   "                    if stride < width {", "                    if stride == 0 {"),
  ("c13_forget_handle", "C13", "leak", "crates/jxl-frame/src/lib.rs",
   "            self.handle = Some(handle);", "            std::mem::forget(handle);"),
+ ("c17_expect_is_last_dht", "C17", "search-unwrap", "crates/jxl-jbr/src/reconstruct.rs",
+  "                let last_idx = self.huffman_code_ptr.iter().position(|hc| hc.is_last);\n                let num_tables = last_idx.ok_or(Error::InvalidData)? + 1;",
+  "                let last_idx = self.huffman_code_ptr.iter().position(|hc| hc.is_last);\n                let num_tables = last_idx.unwrap() + 1;"),
+ ("c01_find_map_unwrap_dqt", "C01", "search-unwrap", "crates/jxl-jbr/src/reconstruct.rs",
+  "                let last_idx = self.quant_ptr.iter().position(|qt| qt.is_last);\n                let num_tables = last_idx.ok_or(Error::InvalidData)? + 1;",
+  "                let num_tables = self.quant_ptr.iter().enumerate().find(|(_, qt)| qt.is_last).map(|(i, _)| i).expect(\"terminated\") + 1;"),
+ ("c01_pass_table_plain_insert", "C01", "insert-discards-previous", "crates/jxl-frame/src/lib.rs",
+  "            pass_shifts\n                .entry(pass)\n                .and_modify(|(min, max)| {\n                    *min = (*min).min(minshift);\n                    *max = (*max).max(maxshift);\n                })\n                .or_insert((minshift, maxshift));",
+  "            pass_shifts.insert(pass, (minshift, maxshift));"),
+ ("c19_cicp_read_at_signature", "C19", "offset-differs", "crates/jxl-color/src/icc/parse.rs",
+  "                cicp = data.get(8..12).and_then(|x| x.try_into().ok());", "                cicp = data.get(..4).and_then(|x| x.try_into().ok());"),
+ ("c19_cicp_wrong_element", "C19", "index-differs", "crates/jxl-color/src/icc/parse.rs",
+  "    let override_trc = if let Some([_, 16, _, _]) = cicp {\n        Some(KnownIccTrc::Pq)\n    } else if let Some([_, 18, _, _]) = cicp {",
+  "    let override_trc = if let Some([16, _, _, _]) = cicp {\n        Some(KnownIccTrc::Pq)\n    } else if let Some([18, _, _, _]) = cicp {"),
+ ("c06_epf_pad_three_iters_short", "C06", "pad-below-reach:iters3", "crates/jxl-render/src/util.rs",
+  "            color_padded_region.pad(6)", "            color_padded_region.pad(5)"),
+ ("c06_epf_step0_runs_for_two_iters", "C06", "pad-below-reach:iters2", "crates/jxl-render/src/filter/epf.rs",
+  "    // Step 0\n    if iters == 3 {", "    // Step 0\n    if iters >= 2 {"),
+ ("c01_cluster_map_decoder_two_dists", "C01", "bound-lost", "crates/jxl-coding/src/lib.rs",
+  "            Decoder::parse(bitstream, 1)?\n        };\n        decoder.begin(bitstream)?;", "            Decoder::parse(bitstream, num_dist.min(2))?\n        };\n        decoder.begin(bitstream)?;"),
 ]
 
 
